@@ -189,6 +189,18 @@ func (r *Report) Finish(verifd string) int {
 		}
 	}
 	replay := ""
+	selftest := os.Getenv("YV_SELFTEST") != ""
+	if nviol > 0 && selftest {
+		for _, o := range r.Obls {
+			if o.Status == "violation" {
+				fmt.Printf("  open: [%s] %s (%s): %s\n", o.Rule, o.Construct, o.Pos, o.Detail)
+			}
+		}
+		return 1
+	}
+	if selftest {
+		return 0
+	}
 	if nviol > 0 {
 		os.MkdirAll(filepath.Join(verifd, "replay"), 0o755)
 		replay = filepath.Join(verifd, "replay", r.Prop+".json")
